@@ -10,3 +10,36 @@ Definition hex_or_dash (t : text) : text :=
 Definition robot_obs (g : text) (cs : list cmd) : text :=
   let '(o, e) := run_grid g cs in
   [69; if e then 49 else 48; 32] ++ hex_or_dash (concat (map (fun l => l ++ [10]) o)).
+
+(** * lexer channel K1 *)
+From Aplang Require Import FloatX Token LexImpl.
+
+Definition sp : text := [32].
+Definition colon : text := [58].
+Fixpoint join (sep : text) (l : list text) : text :=
+  match l with [] => [] | [x] => x | x :: r => x ++ sep ++ join sep r end.
+
+Definition lit_obs (l : literal) : text :=
+  match l with
+  | LNone => [45]
+  | LNum f => 78 :: hex64 (float_bits f)
+  | LStr s => 83 :: hex_text s
+  end.
+
+Definition token_obs (t : token) : text :=
+  string_bytes (tk_name (tkind t)) ++ colon ++ dec (toff t) ++ colon ++ dec (tlen t) ++ colon
+  ++ hex_text (tlex t) ++ colon ++ lit_obs (tlit t).
+
+Definition label_obs (l : N * N) : text := dec (fst l) ++ [43] ++ dec (snd l).
+
+Definition lex_error_obs (e : lex_error) : text :=
+  string_bytes (lex_err_code (ekind e)) ++ [64] ++ join [44] (map label_obs (elabels e)).
+
+Definition lex_result_obs (r : lex_result) : text :=
+  match r with
+  | LexOk ts => [79; 75] ++ concat (map (fun t => sp ++ token_obs t) ts)
+  | LexErr es => [69; 82; 82; 32] ++ dec (N.of_nat (length es)) ++ concat (map (fun e => sp ++ lex_error_obs e) es)
+  | LexFuel => [70; 85; 69; 76]
+  end.
+
+Definition lex_obs (s : text) : text := lex_result_obs (lex s).
